@@ -198,7 +198,7 @@ NeededBlocks(F, o) ==
 NeededUnits(F, o) ==
     CASE o.kind = "box" ->
             {<<ui, ux, uz>> \in Units(F) :
-                /\ \E k \in 1..Len(o.il) : o.il[k] \div UnitExt(F)[1] = ui
+                /\ \E k \in 1..Len(o.il) : o.il[k] \div UE(F, 1) = ui
                 /\ \E k \in 1..Len(o.xl) : o.xl[k] \div 4 = ux
                 /\ \E k \in 1..Len(o.z)  : o.z[k] \div 4 = uz}
       [] OTHER -> {}
